@@ -147,7 +147,19 @@ func runC13(c *Check, a *Analysis) {
 				continue // append(s[:i], s[i+1:]...) shrinks the list
 			}
 			ok := fname(op.Fn) == "(*conns).Append"
-			c.Ob("R-GROW-GUARD", sc.key(op.Fn, "append(c.Conns)"), p.InstrPos(op.Instr), ok, ifs(!ok, "conns.Conns grows outside (*conns).Append, bypassing the limit guard at its call sites"))
+			if !ok {
+				// the container method written in line: the growth itself must then be guarded (or target a fresh list)
+				var recv ssa.Value
+				if ld, isLd := op.Load.(*ssa.UnOp); isLd {
+					if _, base, okf := fieldOfLoad(ld); okf {
+						recv = p.canon(base)
+					}
+				}
+				fresh := recv != nil && baseIsLocalAlloc(recv)
+				g, _ := p.guardedBy(op.Instr, matchLenConnsLtMax(p))
+				ok = fresh || g
+			}
+			c.Ob("R-GROW-GUARD", sc.key(op.Fn, "append(c.Conns)"), p.InstrPos(op.Instr), ok, ifs(!ok, "conns.Conns grows by a direct append without the test len(cs.Conns) < t.MaxConnsPerHost (and not on a list allocated here): more than MaxConnsPerHost connections to one address"))
 		}
 	}
 	c.Rule("R-DIAL-GUARD", "every dial in getConn is reachable only when the idle queue for the address is absent/empty, or replaces a pooled connection just found not alive", 3)
@@ -894,6 +906,12 @@ func ruleTracked(c *Check, a *Analysis, rule string) {
 			return true
 		}
 		if st, ok := x.(*ssa.Store); ok {
+			// cs.Conns = append(cs.Conns, pc) written in line
+			if fr, _, okf := fieldOfAddr(st.Addr); okf && fr.Struct == "conns" && fr.Field == "Conns" {
+				if cc, isC := p.canon(st.Val).(*ssa.Call); isC && calleeName(cc) == "builtin append" && !isRemovalAppend(p, cc) {
+					return true
+				}
+			}
 			if ia, ok := st.Addr.(*ssa.IndexAddr); ok && isLoadOf(p.canon(ia.X), "conns", "Conns") {
 				return true
 			}
@@ -935,7 +953,16 @@ func ruleTracked(c *Check, a *Analysis, rule string) {
 		}
 		c.Ob(rule, "(*conns).Append#stores append(Conns, pc)", ap.Pos(), ok, ifs(!ok, "Append does not add its argument to the active list"))
 	} else {
-		c.Undecided(rule, "(*conns).Append not found")
+		// the method may be written in line at its call sites: then some direct growth must exist
+		direct := 0
+		for _, op := range p.mapOps("conns", "Conns") {
+			if op.Kind == "append" && !isRemovalAppend(p, op.Instr) {
+				direct++
+			}
+		}
+		if direct == 0 {
+			c.Undecided(rule, "(*conns).Append not found and no direct growth of conns.Conns either")
+		}
 	}
 	if del := p.Fn("(*conns).Delete"); del != nil && len(del.Params) == 2 {
 		idx := ssa.Value(del.Params[1])
